@@ -23,14 +23,14 @@ type C11Scenario struct {
 	// Kind of the genuine base message: 0 next-in-order data frame, 1 future data
 	// frame (parked), 2 closing frame next in order, 3 first frame of a new
 	// stream, 4 session-closing frame
-	Kind    int    `json:"kind"`
-	Payload int    `json:"payload"`
-	Pad     int    `json:"pad"`
+	Kind    int `json:"kind"`
+	Payload int `json:"payload"`
+	Pad     int `json:"pad"`
 	// Mod describes the modification
-	Mod     string `json:"mod"` // flip | truncate | extend | edit | rekey | remethod | garbage
-	Bit     int    `json:"bit,omitempty"`
-	Len     int    `json:"len,omitempty"`
-	Seed    uint64 `json:"seed"`
+	Mod  string `json:"mod"` // flip | truncate | extend | edit | rekey | remethod | garbage
+	Bit  int    `json:"bit,omitempty"`
+	Len  int    `json:"len,omitempty"`
+	Seed uint64 `json:"seed"`
 }
 
 var c11Payloads = []int{1, 16, 100}
